@@ -720,10 +720,51 @@ def gen_lazy_list(tier):
     return cases
 
 
+# ---------------------------------------------------------------------------
+# a list spec maps over the target's ITERATION: falsy targets that cannot be iterated fail like truthy ones, empty iterables give []
+
+FALSY_TARGETS = {
+    'None': (lambda: None, False), '0': (lambda: 0, False), '0.0': (lambda: 0.0, False), 'False': (lambda: False, False), "''": (lambda: '', False),
+    "b''": (lambda: b'', False), '[]': (lambda: [], True), '()': (lambda: (), True), '{}': (lambda: {}, True), 'set()': (lambda: set(), True),
+    'empty-generator': (lambda: iter(()), True), '5': (lambda: 5, False), "'ab'": (lambda: 'ab', False), 'True': (lambda: True, False),
+}
+FALSY_POSITIONS = ['direct', 'after-step', 'dict-value', 'coalesce-branch', 'item-of-list']
+
+
+def run_falsy_list(case):
+    from glom import UnregisteredTarget, Coalesce, SKIP
+    tname, position = case
+    mk, iterable = FALSY_TARGETS[tname]
+    v = mk()
+    if position == 'direct':
+        target, spec, want_ok, want_fail = v, [T], [], 'error'
+    elif position == 'after-step':
+        target, spec, want_ok, want_fail = {'items': v}, ('items', [T]), [], 'error'
+    elif position == 'dict-value':
+        target, spec, want_ok, want_fail = {'items': v}, {'r': ('items', [T])}, {'r': []}, 'error'
+    elif position == 'coalesce-branch':
+        target, spec, want_ok, want_fail = {'items': v}, Coalesce(('items', [T]), default='not iterable'), [], 'not iterable'
+    else:
+        target, spec, want_ok, want_fail = [{'items': v}, {'items': [1]}], [Coalesce(('items', [T]), default=SKIP)], [[], [1]], [[1]]
+    try:
+        got = glom(target, spec)
+    except UnregisteredTarget:
+        got = 'error'
+    except Exception as e:
+        got = 'other exception %r' % (e,)
+    want = want_ok if iterable else want_fail
+    if got != want:
+        return R({'expected': repr(want), 'observed': repr(got), 'target': tname, 'position': position}, 'falsy-list')
+    return R(None, 'iterable' if iterable else 'not-iterable', nontrivial=True, steps=1, tags={position})
+
+
 def subs(tier, only=None):
     from ..engine import fast_tracebacks
     fast_tracebacks()
     out = [
+        Sub('list-spec-falsy-targets', [[t, p] for t in FALSY_TARGETS for p in FALSY_POSITIONS], run_falsy_list,
+            rule='case = (falsy / truthy value that can or cannot be iterated, position of the list spec): an un-iterable target is UnregisteredTarget whatever its '
+                 'truth value, an empty iterable gives []', min_nontrivial=60, min_outcomes=2),
         Sub('list-spec-laziness', gen_lazy_list(tier), run_lazy_list,
             rule='case = (items of a one-shot counting source, value at which the sub-spec STOPs, value it SKIPs, position at which the source itself fails, '
                  'position of the list spec): result, propagated failure and the number of items pulled (nothing behind a STOP is touched)',
